@@ -37,7 +37,7 @@ def check(run):
     EC.headroom_class = lambda c: (id(c),)
     try:
         K = max(GC.needed_K(c) for c in cases)
-        pairs = EC.evaluate(cases, K, 'MC_C05', run, spec='MC_Assembly', invariants=(), max_retry=10)
+        pairs = EC.evaluate(cases, K, 'MC_C05', run, spec='MC_Assembly', invariants=(), max_retry=80)
     finally:
         EC.headroom_class = old
     stats = {'designs': 0, 'rejected_not_stationary': 0, 'noise_free': 0, 'noisy_stationary': 0, 'runs': 0, 'unjudged_other_minimum': 0, 'max_iterations_used': 0}
